@@ -9,7 +9,7 @@ for id in $ids; do
   git -C /repo worktree add -q $wt HEAD || continue
   ( cd $wt && git apply /verif/seeded/$id/patch.diff \
     && /venv/bin/python -m pytest -q -p no:cacheprovider --timeout=900 tests 2>&1 | tail -1 > /tmp/vs_$id.suite; \
-    mkdir -p seeded_out/1 && sed -E "s#/tmp/seed2?_C[0-9]+#$wt#g" /verif/seeded/$id/demo.py > seeded_out/1/demo.py; \
+    mkdir -p seeded_out/1 && sed -E "s#/tmp/seed[0-9]?_[A-Z][0-9]+#$wt#g" /verif/seeded/$id/demo.py > seeded_out/1/demo.py; \
     /venv/bin/python seeded_out/1/demo.py >/dev/null 2>&1; echo "demo_with_patch_rc=$?" > /tmp/vs_$id.demo; \
     git checkout -q -- space_packet_parser; \
     /venv/bin/python seeded_out/1/demo.py >/dev/null 2>&1; echo "demo_clean_rc=$?" >> /tmp/vs_$id.demo )
